@@ -20,6 +20,8 @@ where
 {
     db: DB,
     cache: BTreeMap<u64, V>,
+    #[cfg(feature = "verif")]
+    verif_name: String,
 }
 
 impl<V> BlockDatabase<V>
@@ -42,6 +44,8 @@ where
         Ok(Self {
             db,
             cache: BTreeMap::new(),
+            #[cfg(feature = "verif")]
+            verif_name: name.to_string(),
         })
     }
 
@@ -73,6 +77,12 @@ where
     /// block_number: u64 - the block number to set the value for
     /// value: V - the value to set
     pub fn set(&mut self, block_number: u64, value: V) {
+        #[cfg(feature = "verif")]
+        crate::verif_hooks::record(crate::verif_hooks::Ev::BSet {
+            table: self.verif_name.clone(),
+            key: block_number,
+            val: value.encode_vec(),
+        });
         self.cache.insert(block_number, value.clone());
     }
 
@@ -81,9 +91,23 @@ where
     /// It writes all the values in the cache to the database
     /// It does not clear the cache
     pub fn commit(&mut self) -> Result<(), Box<dyn Error>> {
+        #[cfg(feature = "verif")]
+        crate::verif_hooks::record(crate::verif_hooks::Ev::BCommit {
+            table: self.verif_name.clone(),
+        });
         for (key, value) in self.cache.iter() {
+            #[cfg(feature = "verif")]
+            crate::verif_hooks::before_persistent_write(crate::verif_hooks::Ev::BPut {
+                table: self.verif_name.clone(),
+                key: *key,
+                val: Some(value.encode_vec()),
+            })?;
             self.db.put(&key.encode_vec(), &value.encode_vec())?;
         }
+        #[cfg(feature = "verif")]
+        crate::verif_hooks::before_persistent_write(crate::verif_hooks::Ev::BFlush {
+            table: self.verif_name.clone(),
+        })?;
         self.db.flush()?;
         Ok(())
     }
@@ -95,6 +119,10 @@ where
     /// This does not delete the data from the database, make sure to call commit before clearing the cache
     /// to write the data to the database, otherwise the data will be lost
     pub fn clear_cache(&mut self) {
+        #[cfg(feature = "verif")]
+        crate::verif_hooks::record(crate::verif_hooks::Ev::BClear {
+            table: self.verif_name.clone(),
+        });
         self.cache.clear();
     }
 
@@ -122,10 +150,21 @@ where
     //
     /// latest_valid_block_number: u64 - the latest valid block number
     pub fn reorg(&mut self, latest_valid_block_number: u64) -> Result<(), Box<dyn Error>> {
+        #[cfg(feature = "verif")]
+        crate::verif_hooks::record(crate::verif_hooks::Ev::BReorg {
+            table: self.verif_name.clone(),
+            block: latest_valid_block_number,
+        });
         let mut current = latest_valid_block_number + 1;
         let last_block = self.last_key()?;
         if let Some(end) = last_block {
             while end >= current {
+                #[cfg(feature = "verif")]
+                crate::verif_hooks::before_persistent_write(crate::verif_hooks::Ev::BPut {
+                    table: self.verif_name.clone(),
+                    key: current,
+                    val: None,
+                })?;
                 self.db.delete(&U64ED::from(current).encode_vec())?;
                 self.cache.remove(&current);
                 current += 1;
